@@ -13,6 +13,7 @@ package main
 // the declared content length (limit).                                                alarm
 
 import (
+	"bufio"
 	"bytes"
 	"context"
 	"encoding/json"
@@ -20,9 +21,13 @@ import (
 	"fmt"
 	"io"
 	"math/rand"
+	"os"
+	"os/exec"
 	"reflect"
 	"strconv"
 	"strings"
+	"syscall"
+	"time"
 
 	"github.com/goplus/xgo/x/jsonrpc2"
 
@@ -308,7 +313,7 @@ func replayReads(c *fcase, input []byte, variant string, rng *rand.Rand, out *fv
 		msg, n, err, pan := safeRead(rd)
 		where := fmt.Sprintf("%s read#%d defect=%s/%d/%d", variant, i+1, cls, c.D.K, c.D.N)
 		if pan != nil {
-			out.viol("panic:"+exp.T+":"+exp.C, fmt.Sprintf("%s: panic %v", where, pan))
+			out.viol("panic:"+cls, fmt.Sprintf("%s: panic %v", where, pan))
 			return
 		}
 		total += n
@@ -404,64 +409,219 @@ func kindsOf(ms []fmsg) string {
 	return b.String()
 }
 
-func runFrame() {
-	rng := rand.New(rand.NewSource(hlib.Seed()))
-	hlib.ForEachCase(func(idx int, c *fcase) {
-		model := []byte(hlib.Join(c.Stream))
-		in := map[string]any{"msgs": kindsOf(c.Ms), "defect": c.D, "stream": string(model)}
-		out := &fverdict{v: "ok"}
-		nt := c.D.C + "|" + strconv.Itoa(c.D.K) + "|" + kindsOf(c.Ms)
-		if c.D.C == "trunc" && len(c.Reads) > 0 {
-			nt += "|" + c.Reads[len(c.Reads)-1].C
-		}
-		input := model
-		func() {
-			defer func() {
-				if e := recover(); e != nil {
-					out.viol("panic:harness-or-writer", fmt.Sprint(e))
-				}
-			}()
-			if c.D.C == "none" {
-				// the real writer produces the stream that is read back
-				var buf bytes.Buffer
-				w := jsonrpc2.HeaderFramer().Writer(&buf)
-				var sum int64
-				for i := range c.Ms {
-					msg, err := c.Ms[i].build()
-					if err != nil {
-						out.viol("constructor-error:"+c.Ms[i].K, err.Error())
-						return
-					}
-					n, err := w.Write(context.Background(), msg)
-					if err != nil {
-						out.viol("write-error:"+c.Ms[i].K, err.Error())
-						return
-					}
-					sum += n
-				}
-				input = append([]byte{}, buf.Bytes()...)
-				if !bytes.Equal(input, model) {
-					out.drift("writer-bytes", fmt.Sprintf("real %q model %q", input, model))
-					// positions of the model no longer apply: compare messages only
-					for i := range c.Reads {
-						c.Reads[i].Pos, c.Reads[i].Limit = -1, len(input)
-					}
-				} else if int(sum) != len(input) {
-					out.drift("writer-count", fmt.Sprintf("Write returned %d in total, wrote %d", sum, len(input)))
-				}
-			}
-			for _, variant := range []string{"whole", "byte1", "chunks"} {
-				replayReads(c, input, variant, rng, out)
+// frameCase replays one case in this process.
+func frameCase(idx int, c *fcase, rng *rand.Rand) hlib.Result {
+	model := []byte(hlib.Join(c.Stream))
+	in := map[string]any{"msgs": kindsOf(c.Ms), "defect": c.D, "stream": string(model)}
+	out := &fverdict{v: "ok"}
+	nt := c.D.C + "|" + strconv.Itoa(c.D.K) + "|" + kindsOf(c.Ms)
+	if c.D.C == "trunc" && len(c.Reads) > 0 {
+		nt += "|" + c.Reads[len(c.Reads)-1].C
+	}
+	input := model
+	func() {
+		defer func() {
+			if e := recover(); e != nil {
+				out.viol("panic:harness-or-writer", fmt.Sprint(e))
 			}
 		}()
-		res := hlib.Result{Idx: idx, V: out.v, Sig: out.sig, Detail: out.detail, Input: in, NT: nt}
-		if out.v == "ok" {
-			var sb strings.Builder
-			for _, r := range c.Reads {
-				fmt.Fprintf(&sb, "%s/%s@%d ", r.T, r.C, r.Pos)
+		if c.D.C == "none" {
+			// the real writer produces the stream that is read back
+			var buf bytes.Buffer
+			w := jsonrpc2.HeaderFramer().Writer(&buf)
+			var sum int64
+			for i := range c.Ms {
+				msg, err := c.Ms[i].build()
+				if err != nil {
+					out.viol("constructor-error:"+c.Ms[i].K, err.Error())
+					return
+				}
+				n, err := w.Write(context.Background(), msg)
+				if err != nil {
+					out.viol("write-error:"+c.Ms[i].K, err.Error())
+					return
+				}
+				sum += n
 			}
-			res.Detail = sb.String()
+			input = append([]byte{}, buf.Bytes()...)
+			if !bytes.Equal(input, model) {
+				out.drift("writer-bytes", fmt.Sprintf("real %q model %q", input, model))
+				// positions of the model no longer apply: compare messages only
+				for i := range c.Reads {
+					c.Reads[i].Pos, c.Reads[i].Limit = -1, len(input)
+				}
+			} else if int(sum) != len(input) {
+				out.drift("writer-count", fmt.Sprintf("Write returned %d in total, wrote %d", sum, len(input)))
+			}
 		}
-		hlib.Emit(res)
-	})
+		for _, variant := range []string{"whole", "byte1", "chunks"} {
+			replayReads(c, input, variant, rng, out)
+		}
+	}()
+	res := hlib.Result{Idx: idx, V: out.v, Sig: out.sig, Detail: out.detail, Input: in, NT: nt}
+	if out.v == "ok" {
+		var sb strings.Builder
+		for _, r := range c.Reads {
+			fmt.Fprintf(&sb, "%s/%s@%d ", r.T, r.C, r.Pos)
+		}
+		res.Detail = sb.String()
+	}
+	return res
+}
+
+// frameWorkerMemCap is the address-space limit of a worker: a reader that allocates the declared
+// Content-Length before any body byte is there fails fast (runtime: out of memory) instead of
+// thrashing the machine.
+const frameWorkerMemCap = 2 << 30
+
+// runFrameWorker is the sub-process that touches the code under test: one case per stdin line, one
+// result per stdout line.  It may die (fatal error, unrecovered panic); the parent notices.
+func runFrameWorker() {
+	lim := syscall.Rlimit{Cur: frameWorkerMemCap, Max: frameWorkerMemCap}
+	if err := syscall.Setrlimit(syscall.RLIMIT_AS, &lim); err != nil {
+		fmt.Fprintln(os.Stderr, "worker: setrlimit:", err)
+		os.Exit(4)
+	}
+	rng := rand.New(rand.NewSource(hlib.Seed()))
+	sc := bufio.NewScanner(os.Stdin)
+	sc.Buffer(make([]byte, 1<<20), 1<<28)
+	for sc.Scan() {
+		var c fcase
+		if err := json.Unmarshal(sc.Bytes(), &c); err != nil {
+			fmt.Fprintln(os.Stderr, "worker: bad case:", err)
+			os.Exit(3)
+		}
+		hlib.Emit(frameCase(0, &c, rng))
+		hlib.Flush()
+	}
+}
+
+type frameWorker struct {
+	cmd    *exec.Cmd
+	in     io.WriteCloser
+	out    chan []byte // result lines; closed when the worker's stdout ends
+	stderr *bytes.Buffer
+}
+
+func startFrameWorker() *frameWorker {
+	cmd := exec.Command(os.Args[0], "frame-worker")
+	w := &frameWorker{cmd: cmd, out: make(chan []byte, 1), stderr: &bytes.Buffer{}}
+	var err error
+	if w.in, err = cmd.StdinPipe(); err != nil {
+		fmt.Fprintln(os.Stderr, "frame: stdin pipe:", err)
+		os.Exit(3)
+	}
+	so, err := cmd.StdoutPipe()
+	if err != nil {
+		fmt.Fprintln(os.Stderr, "frame: stdout pipe:", err)
+		os.Exit(3)
+	}
+	cmd.Stderr = w.stderr
+	if err := cmd.Start(); err != nil {
+		fmt.Fprintln(os.Stderr, "frame: cannot start worker:", err)
+		os.Exit(3)
+	}
+	go func() {
+		sc := bufio.NewScanner(so)
+		sc.Buffer(make([]byte, 1<<20), 1<<28)
+		for sc.Scan() {
+			w.out <- append([]byte{}, sc.Bytes()...)
+		}
+		close(w.out)
+	}()
+	return w
+}
+
+func (w *frameWorker) stop() {
+	w.in.Close()
+	w.cmd.Process.Kill()
+	w.cmd.Wait()
+}
+
+// how a dead worker died, from its stderr (structural classes only)
+func frameDeath(stderr string) (kind, what string) {
+	switch {
+	case strings.Contains(stderr, "out of memory"), strings.Contains(stderr, "cannot allocate memory"):
+		return "fatal", "out-of-memory"
+	case strings.Contains(stderr, "fatal error:"):
+		return "fatal", "runtime-fatal-error"
+	case strings.Contains(stderr, "panic:"):
+		return "panic", "unrecovered-panic"
+	}
+	return "fatal", "worker-died"
+}
+
+// runFrame is the parent: it feeds the cases to a worker sub-process and restarts the worker
+// behind a case that killed it; that case is a violation (the reader must return an error).
+func runFrame() {
+	sc := bufio.NewScanner(os.Stdin)
+	sc.Buffer(make([]byte, 1<<20), 1<<28)
+	w := startFrameWorker()
+	idx, deaths := 0, 0
+	for sc.Scan() {
+		line := sc.Bytes()
+		if len(line) == 0 {
+			continue
+		}
+		var head struct {
+			D struct {
+				C string `json:"c"`
+				K int    `json:"k"`
+			} `json:"d"`
+		}
+		if err := json.Unmarshal(line, &head); err != nil {
+			fmt.Fprintf(os.Stderr, "bad case line %d: %v\n", idx, err)
+			os.Exit(3)
+		}
+		_, werr := w.in.Write(append(append([]byte{}, line...), '\n'))
+		var resLine []byte
+		ok := false
+		hang := false
+		if werr == nil {
+			select {
+			case resLine, ok = <-w.out:
+			case <-time.After(60 * time.Second):
+				hang = true
+			}
+		}
+		if ok {
+			var r hlib.Result
+			if err := json.Unmarshal(resLine, &r); err != nil {
+				fmt.Fprintf(os.Stderr, "bad worker result for case %d: %v\n", idx, err)
+				os.Exit(3)
+			}
+			r.Idx = idx
+			hlib.Emit(r)
+		} else {
+			w.stop()
+			se := w.stderr.String()
+			if strings.HasPrefix(se, "worker:") { // the worker could not even start working
+				fmt.Fprintln(os.Stderr, se)
+				os.Exit(3)
+			}
+			kind, what := frameDeath(se)
+			if hang {
+				kind, what = "hang", "no-result-in-60s"
+			}
+			if len(se) > 1500 {
+				se = se[:1500]
+			}
+			hlib.Emit(hlib.Result{Idx: idx, V: "viol", Sig: kind + ":" + head.D.C,
+				Detail: fmt.Sprintf("the reader process died on this stream (%s); defect=%s frame %d\n%s", what, head.D.C, head.D.K, se),
+				Input:  map[string]any{"defect": head.D}, NT: head.D.C + "|died"})
+			deaths++
+			if deaths > 2000 {
+				fmt.Fprintln(os.Stderr, "frame: more than 2000 worker deaths, giving up")
+				os.Exit(3)
+			}
+			w = startFrameWorker()
+		}
+		idx++
+	}
+	w.in.Close()
+	w.cmd.Wait()
+	if err := sc.Err(); err != nil {
+		fmt.Fprintln(os.Stderr, "reading cases:", err)
+		os.Exit(3)
+	}
 }
